@@ -12,6 +12,7 @@ import (
 	"verifharness/props/c03"
 	"verifharness/props/c06"
 	"verifharness/props/c07"
+	"verifharness/props/c08"
 	"verifharness/props/c13"
 )
 
@@ -19,6 +20,7 @@ var registry = map[string]func() fw.Prop{
 	"C03": func() fw.Prop { return c03.Prop{} },
 	"C06": func() fw.Prop { return c06.Prop{} },
 	"C07": func() fw.Prop { return c07.Prop{} },
+	"C08": func() fw.Prop { return c08.Prop{} },
 	"C13": func() fw.Prop { return c13.Prop{} },
 }
 
